@@ -77,13 +77,14 @@ Seeds ==
              seqNo(k, len) == [i \in 1..len |-> S4[((k \div Pow4(len - i)) % 4) + 1]]
              allSeqs(len) == NewArgs("bag", NUCLEOTIDS, 0, [k \in 1..Pow4(len) |-> Row(DecPad(k, 4), seqNo(k - 1, len))])
              small == NewArgs("bag", NUCLEOTIDS, 0, <<Row(nA, <<65, 84, 71>>)>>)
-             refRows == SeqsLen({65, 45}, 6)
-             ntbag == NewArgs("bag", NUCLEOTIDS, 0, <<Row(nA, <<65, 84, 71, 65, 65, 65, 84, 84>>), Row(nB, <<97, 117, 103, 67, 67, 78>>)>>)
              placements(aa, ln) == {s \in SeqsLen(Range(aa) \cup {45}, ln) : SelectSeq(s, LAMBDA c : c # 45) = aa}
+             refRows == placements(<<65, 84, 71, 67, 65, 84>>, 8) \cup placements(<<65, 84, 71>>, 5) \cup {<<45, 45, 45, 65, 84, 71>>}
+             ntbag == NewArgs("bag", NUCLEOTIDS, 0, <<Row(nA, <<65, 84, 71, 65, 65, 65, 84, 84>>), Row(nB, <<97, 117, 103, 67, 67, 78>>)>>)
          IN (IF Scope = "full" THEN {<<allCodons("bag"), small>>, <<allCodons("align"), small>>} ELSE {<<allCodons("bag"), small>>})
             \cup {<<allSeqs(len), small>> : len \in 0..(IF Scope = "full" THEN 6 ELSE 5)}
-            \cup {<<NewArgs("align", NUCLEOTIDS, 0, <<Row(nA, r), Row(nB, o)>>), small>> :
-                     r \in refRows, o \in {<<65, 84, 71, 65, 84, 71>>, <<65, 45, 71, 67, 84, 45>>}}
+            \cup UNION {{<<NewArgs("align", NUCLEOTIDS, 0, <<Row(nA, r), Row(nB, o)>>), small>> :
+                            o \in {[i \in 1..Len(r) |-> <<65, 84, 71, 67>>[(i % 4) + 1]], [i \in 1..Len(r) |-> <<65, 45, 71, 45, 45, 67>>[(i % 6) + 1]]}}
+                         : r \in refRows}
             \cup {<<ntbag, NewArgs("align", AMINOACIDS, 0, <<Row(nA, x), Row(nB, y)>>)>> :
                      x \in placements(<<77, 75>>, 3), y \in placements(<<77, 80>>, 3)}
             \cup {<<ntbag, NewArgs("align", AMINOACIDS, 0, <<Row(nA, <<77, 75, 88>>), Row(nB, <<77, 45, 45>>)>>)>>,
@@ -152,7 +153,9 @@ RangeLists(pl) == {<<Rg(0, 0, pl - 1, 2), Rg(1, 1, pl - 1, 2)>>,
                    <<Rg(0, 0, pl, 1), Rg(1, 0, 0, 1)>>,
                    <<Rg(1, 1, pl - 1, 1), Rg(0, 0, 0, 1), Rg(1, 0, 0, 0)>>,
                    <<Rg(1, 1, pl - 1, 1), Rg(0, 0, 0, 1)>>,
-                   <<Rg(0, 0, pl - 1, 1), Rg(1, 0, 0, 1)>>}
+                   <<Rg(0, 0, pl - 1, 1), Rg(1, 0, 0, 1)>>,
+                   <<Rg(0, 0, pl - 3, 2), Rg(0, pl - 2, pl - 1, 1), Rg(1, 1, pl - 3, 2)>>,
+                   <<Rg(0, 0, 1, 2), Rg(0, 2, pl - 1, 1), Rg(1, 1, 1, 1)>>}
 InstC06(h) ==
   UNION {{Inst("ReverseComplement", r, NoArg), Inst("ToUpper", r, NoArg), Inst("ToLower", r, NoArg), Inst("Unalign", r, NoArg)}
          \cup {Inst("ReverseComplementSequences", r, [names |-> ns]) : ns \in SeqsUpTo(Names3, 2)}
@@ -193,7 +196,7 @@ InstC04(h) ==
     \cup {Inst("RefSites", r, [name |-> n, sites |-> ss]) : n \in {nA, nZ}, ss \in SeqsUpTo((-1)..L(h[r]), 2)}
     \cup {Inst("Concat", r, [other |-> x]) : x \in AlignIds(h) \ {r}}
     \cup {Inst("Append", r, [other |-> x]) : x \in AlignIds(h) \ {r}}
-    \cup UNION {{Inst("Split", r, [plen |-> pl, ranges |-> rs]) : rs \in RangeLists(pl)} : pl \in {L(h[r]), L(h[r]) + 1} \cap 0..9}
+    \cup UNION {{Inst("Split", r, [plen |-> pl, ranges |-> rs, text |-> tx]) : rs \in RangeLists(pl), tx \in Bools} : pl \in {L(h[r]), L(h[r]) + 1} \cap 0..9}
     \cup {Inst("Transpose", r, NoArg), Inst("DiffWithFirst", r, NoArg), Inst("ReplaceMatchChars", r, NoArg)}
     : r \in 1..Len(h)}
 Cutoffs == {<<0, 1>>, <<1, 4>>, <<1, 3>>, <<1, 2>>, <<2, 3>>, <<3, 4>>, <<1, 1>>}
@@ -262,7 +265,7 @@ InstC19(h) ==
               {Inst("Clone", r, NoArg), Inst("Transpose", r, NoArg)}
               \cup {Inst("SubAlign", r, [start |-> s, len |-> n]) : s \in 0..L(h[r]), n \in 0..L(h[r])}
               \cup {Inst("SelectSites", r, [sites |-> ss]) : ss \in {[i \in 1..L(h[r]) |-> i - 1], <<0>>, <<L(h[r]) - 1, 0>>, <<>>}}
-              \cup {Inst("Split", r, [plen |-> L(h[r]), ranges |-> <<Rg(0, 0, 0, 1), Rg(1, 1, L(h[r]) - 1, 1)>>])}
+              \cup {Inst("Split", r, [plen |-> L(h[r]), ranges |-> <<Rg(0, 0, 0, 1), Rg(1, 1, L(h[r]) - 1, 1)>>, text |-> FALSE])}
               \cup {Inst("Query", r, [q |-> q]) : q \in Queries}
               \cup {Inst("CharStats", r, NoArg), Inst("CountDifferences", r, NoArg), Inst("Entropy", r, [site |-> 0, rmgaps |-> TRUE]),
                     Inst("InversePositions", r, [sites |-> <<0>>]), Inst("RefSites", r, [name |-> nA, sites |-> <<0>>])}
